@@ -63,6 +63,8 @@ type Program struct {
 	// Lits are the marker literals of "literals" features (C09).
 	Lits   []LitInfo
 	curPkg int
+	// ExtraLd are -X flags contributed by generated (gen) features.
+	ExtraLd []string
 }
 
 // LitInfo describes one marker literal.
@@ -541,6 +543,7 @@ func Render(s Spec) *Program {
 	if len(s.Pkgs) >= 2 {
 		p.Features["multipkg"] = true
 	}
+	ldflags = append(ldflags, p.ExtraLd...)
 	p.LdFlags = strings.Join(ldflags, " ")
 	return p
 }
